@@ -21,12 +21,16 @@ ASSUMPTIONS = ["'dispatch' is observed at Producer._send_requests (the hand-over
 REACH_MIN = {"dispatches": {"quick": 344, "thorough": 5805}, "threshold_dispatches": {"quick": 200, "thorough": 3375},
              "tick_dispatches": {"quick": 60, "thorough": 1012}, "cancel_before_dispatch": {"quick": 48, "thorough": 810},
              "cancel_after_dispatch": {"quick": 10, "thorough": 168}, "stops_with_outstanding": {"quick": 28, "thorough": 472},
-             "dispatch_on_resolve": {"quick": 30, "thorough": 506}, "state_checks": {"quick": 5000, "thorough": 84375}}
+             "dispatch_on_resolve": {"quick": 30, "thorough": 506}, "state_checks": {"quick": 5000, "thorough": 84375},
+             "batches_with_a_late_cancel": {"quick": 20, "thorough": 500}, "duplicate_sends": {"quick": 15, "thorough": 400}}
 
 
 def cases(tier, seed):
     n = {"quick": 320, "thorough": 9000}[tier]
-    return [dict(seed=seed * 1000003 + 1900000 + i, profile="batch") for i in range(n)]
+    out = [dict(seed=seed * 1000003 + 1900000 + i, profile="batch") for i in range(n)]
+    n2 = {"quick": 100, "thorough": 2500}[tier]
+    out += [dict(seed=seed * 1000003 + 2900000 + i, profile="latecancel") for i in range(n2)]
+    return out
 
 
 def msg_bytes(msgs):
@@ -37,7 +41,7 @@ def run(spec):
     from afkak import common as C
     from twisted.internet.defer import CancelledError as TCancelled
     res = Result()
-    sc = prod.gen_scenario(spec["seed"], "batch")
+    sc = prod.gen_scenario(spec["seed"], spec.get("profile", "batch"))
     cfg = sc["cfg"]
     state = dict(checks=0, missing=None)
     holder = {}
@@ -246,6 +250,10 @@ def check(res, tr, holder, state, C, TCancelled):
                             "batch, period %.4fs" % (dispatch_time[s] - start, T), send=s)
             res.ob("no_starvation")
     # 3 cancellation
+    dup_involved = set()
+    for sd in sc["sends"]:
+        if sd.get("dup_of") is not None:
+            dup_involved.update((sd["s"], sd["dup_of"]))
     on_wire = set()
     for r in reqs:
         for recs in r["payloads"].values():
@@ -266,10 +274,63 @@ def check(res, tr, holder, state, C, TCancelled):
                     val if ok else val.type.__name__,), send=s, when=rec.get("cancel_kind"))
         elif abs(t - rec["cancelled"]) > 1e-9:
             res.violate("cancel/not-immediate", "cancel() did not fail the Deferred at once", send=s)
-        if rec.get("cancel_kind") == "before" and s in on_wire:
+        if rec.get("cancel_kind") == "before" and s in on_wire and s not in dup_involved:
             res.violate("cancel/cancelled-before-dispatch-but-transmitted", "a send cancelled before dispatch was "
                         "transmitted nevertheless", send=s)
         res.ob("cancel_semantics")
+    # 3b a cancel after dispatch only detaches its caller: once the batch has resolved, every other send that was in
+    # it has its result
+    if tr.stop_called is None and getattr(tr, "client_closed", None) is None:
+        resolved_at = [ev[1] for ev in log if ev[0] == "batch_resolved"]
+        k = 0
+        for ev in log:
+            if ev[0] != "batch_dispatch":
+                continue
+            if k >= len(resolved_at) or resolved_at[k] > tr.horizon:
+                break
+            t_res = resolved_at[k]
+            k += 1
+            members = [by_d[d] for d in ev[2] if d in by_d]
+            late_cancelled = [m for m in members if tr.sends[m]["cancelled"] is not None and
+                              tr.sends[m]["cancelled"] >= ev[1] - 1e-9 and id(tr.sends[m]["d"]) in ev[3]]
+            if late_cancelled:
+                res.hit("batches_with_a_late_cancel")
+            for m in members:
+                rec = tr.sends[m]
+                if rec["cancelled"] is not None or id(rec["d"]) not in ev[3]:
+                    continue
+                if not rec["fires"] or m in getattr(tr, "unfired_at_horizon", ()):
+                    res.violate("cancel-later/sibling-left-without-result" if late_cancelled else
+                                "resolved-batch/send-left-without-result", "the batch resolved at %.4f but a send that "
+                                "was dispatched in it (and not cancelled) still has no result at the horizon" %
+                                (t_res - tr.base), send=m, cancelled_siblings=late_cancelled)
+            res.ob("batch_members_resolved")
+    if any(sd.get("dup_of") is not None for sd in sc["sends"]):
+        res.hit("duplicate_sends")
+        # copies of the repeated message on the wire = copies not withdrawn before dispatch; the surviving copy's
+        # caller gets a result
+        for sd in sc["sends"]:
+            if sd.get("dup_of") is None:
+                continue
+            pair = [sd["s"], sd["dup_of"]]
+            want = sum(1 for x in pair if x in tr.sends and tr.sends[x].get("cancel_kind") != "before")
+            head = b"%d:0:" % sd["dup_of"]
+            copies = sum(1 for r in reqs for recs in r["payloads"].values() for (k_, v_) in recs
+                         if v_ is not None and v_.startswith(head))
+            if tr.stop_called is None and copies < want:
+                res.violate("duplicate/surviving-copy-never-transmitted", "the same message was sent twice, %d of the "
+                            "copies were not withdrawn before dispatch, %d reached the wire" % (want, copies),
+                            sends=pair)
+            elif copies > want:
+                res.violate("duplicate/withdrawn-copy-transmitted", "the same message was sent twice, %d of the copies "
+                            "were not withdrawn before dispatch, %d reached the wire" % (want, copies), sends=pair)
+            for x in pair:
+                rec = tr.sends.get(x)
+                if rec is not None and rec["cancelled"] is None and tr.stop_called is None and (
+                        not rec["fires"] or x in getattr(tr, "unfired_at_horizon", ())):
+                    res.violate("duplicate/surviving-copy-left-without-result", "a send repeating another one word "
+                                "for word (the other was cancelled) has no result at the horizon", send=x)
+            res.ob("duplicate_sends_independent")
     # 4 stop
     if tr.stop_called is not None:
         if tr.stop_raised:
